@@ -54,6 +54,7 @@ func c12RunSource(src string, fl c12Flags, cmds string, testMode bool) (c12Resul
 		b, err := comp.Compile("main", t)
 		if err != nil {
 			compiled = false
+			c12CompileErr = err
 			b = bytecode.New("c12-empty").Seal()
 		}
 		return bytecode.NewContext(st, b).SetTokenizer(t)
@@ -66,6 +67,9 @@ func c12RunSource(src string, fl c12Flags, cmds string, testMode bool) (c12Resul
 	}
 	return res, compiled
 }
+
+// c12CompileErr is the last compile error (VERIF_C12_DEBUG shows it)
+var c12CompileErr error
 
 var c12Elapsed = regexp.MustCompile(`\((PASS|FAIL)\)[ \t]*([0-9][0-9.hmsµnu]*)?[ \t]*`)
 var c12Verdict = regexp.MustCompile(`TEST: [^\n]*?\((PASS|FAIL)\)|Error:\s*at [^\n]*`)
@@ -208,12 +212,190 @@ func c12GenSource(r *rand.Rand) string {
 	return g.sb.String()
 }
 
+// c12GenPanicSource: programs built around panic / defer / recover (bytecode/panic.go:unwindPanic,
+// defer.go:invokePanicDefers run the deferred functions in CHILD contexts).  A chain of functions h0 <- h1 <- …;
+// each has output before and after, ordinary defers, recovering defers (closure with `if r := recover()`, bare
+// recover(), a recovering closure that sets a named result, a recovering closure that itself calls a function
+// that panics and recovers), and either panics above a threshold (directly, inside a loop / if / try block) or
+// calls the next function down, so a panic propagates through callers that have defers of their own.  main calls
+// the chain with small and large arguments and sometimes ends in an unrecovered panic (the outcome).
+func c12GenPanicSource(r *rand.Rand) string {
+	g := &c12Src{r: r}
+	g.line("package main")
+	g.line("import \"fmt\"")
+	n := 1 + r.Intn(3)
+	// a leaf that always recovers its own panic: used from inside deferred closures (nested unwinding)
+	g.line("func leaf(x int) (res int) {")
+	g.ind++
+	g.line("defer func() {")
+	g.line("  r := recover()")
+	g.line("  fmt.Println(\"leaf recovered\", r)")
+	g.line("  res = x + 100")
+	g.line("}()")
+	g.line("fmt.Println(\"leaf\", x)")
+	g.line("if x >= 0 {")
+	g.line("  m := fmt.Sprintf(\"leaf %%d\", x)")
+	g.line("  panic(m)")
+	g.line("}")
+	g.line("return x")
+	g.ind--
+	g.line("}")
+	recovers := make([]bool, n)
+	for i := 0; i < n; i++ {
+		name := fmt.Sprintf("h%d", i)
+		named := r.Intn(2) == 0
+		if named {
+			g.line("func %s(x int) (res int) {", name)
+		} else {
+			g.line("func %s(x int) int {", name)
+		}
+		g.ind++
+		g.line("fmt.Println(\"%s enter\", x)", name)
+		g.line("a := x * 2")
+		for d, nd := 0, r.Intn(4); d < nd; d++ {
+			g.uid++
+			switch k := r.Intn(8); {
+			case k < 2: // ordinary defer, closure
+				g.line("defer func() {")
+				g.line("  fmt.Println(\"%s deferred %d\", a)", name, g.uid)
+				g.line("}()")
+			case k < 3: // ordinary defer, plain call with an argument captured now
+				g.line("defer fmt.Println(\"%s deferred call %d\", a)", name, g.uid)
+			case k < 5: // the classic recover handler, output before and after the recover
+				recovers[i] = true
+				g.line("defer func() {")
+				g.line("  fmt.Println(\"%s handler %d\")", name, g.uid)
+				g.line("  if r := recover(); r != nil {")
+				g.line("    fmt.Println(\"%s recovered\", r)", name)
+				if named && r.Intn(2) == 0 {
+					g.line("    res = %d", 1000+g.uid)
+				}
+				g.line("  }")
+				g.line("  fmt.Println(\"%s handler end %d\", a)", name, g.uid)
+				g.line("}()")
+			case k < 6: // bare recover() as the LAST statement of the closure
+				recovers[i] = true
+				g.line("defer func() {")
+				g.line("  a = a + 1")
+				g.line("  fmt.Println(\"%s quiet handler %d\", a)", name, g.uid)
+				g.line("  recover()")
+				g.line("}()")
+			case k < 7: // a deferred closure that runs a panicking-and-recovering function while unwinding
+				g.line("defer func() {")
+				g.line("  v := leaf(a)")
+				g.line("  fmt.Println(\"%s nested\", v)", name)
+				if r.Intn(2) == 0 {
+					recovers[i] = true
+					g.line("  r := recover()")
+					g.line("  fmt.Println(\"%s recovered after nested\", r)", name)
+				}
+				g.line("}()")
+			default: // a function value deferred with an argument
+				g.line("defer func(k int) {")
+				g.line("  fmt.Println(\"%s deferred arg\", k)", name)
+				g.line("}(a + %d)", g.uid)
+			}
+			if r.Intn(3) == 0 {
+				g.line("a = a + %d", 1+r.Intn(5))
+			}
+		}
+		g.line("fmt.Println(\"%s working\", a)", name)
+		thr := 1 + r.Intn(4)
+		// (compiler/panic.go takes an expression ATOM as the panic value)
+		g.line("msg := fmt.Sprintf(\"%s:%%d\", a)", name)
+		val := []string{fmt.Sprintf("\"%s too big\"", name), "x", "msg", fmt.Sprint(10 + r.Intn(90))}[r.Intn(4)]
+		if i > 0 && r.Intn(4) != 0 {
+			// calls the next function down; its panic (if not recovered there) unwinds through this frame
+			g.line("v := h%d(x + %d)", i-1, r.Intn(2))
+			g.line("fmt.Println(\"%s got\", v)", name)
+			if r.Intn(3) == 0 {
+				g.line("if x > %d {", thr+1)
+				g.line("  panic(%s)", val)
+				g.line("}")
+			}
+		} else {
+			switch r.Intn(4) {
+			case 0:
+				g.line("for i := 0; i < 3; i = i + 1 {")
+				g.line("  fmt.Println(\"%s loop\", i)", name)
+				g.line("  if x + i > %d {", thr+1)
+				g.line("    panic(%s)", val)
+				g.line("  }")
+				g.line("}")
+			case 1:
+				g.line("try {")
+				g.line("  fmt.Println(\"%s in try\")", name)
+				g.line("  if x > %d {", thr)
+				g.line("    panic(%s)", val)
+				g.line("  }")
+				g.line("  a = a / (x - x)")
+				g.line("} catch(e) {")
+				g.line("  fmt.Println(\"%s caught\", e)", name)
+				g.line("}")
+			default:
+				g.line("if x > %d {", thr)
+				g.line("  panic(%s)", val)
+				g.line("}")
+			}
+		}
+		g.line("fmt.Println(\"%s leave\", a)", name)
+		if named && r.Intn(2) == 0 {
+			g.line("res = a + x")
+			g.line("return")
+		} else {
+			g.line("return a + x")
+		}
+		g.ind--
+		g.line("}")
+	}
+	g.line("func main() {")
+	g.ind++
+	g.line("fmt.Println(\"start\")")
+	if r.Intn(3) == 0 {
+		g.line("defer fmt.Println(\"main deferred\")")
+	}
+	// arguments are only passed to a chain that recovers somewhere at or below the called function;
+	// otherwise the first large argument ends the program (also a wanted case, but only as the last call)
+	safe := func(f int) bool {
+		for j := 0; j <= f; j++ {
+			if !recovers[j] {
+				return false
+			}
+		}
+		return true
+	}
+	for i, m := 0, 2+r.Intn(4); i < m; i++ {
+		f := r.Intn(n)
+		arg := r.Intn(8)
+		if !safe(f) && i < m-1 {
+			arg = 0
+		}
+		g.line("v%d := h%d(%d)", i, f, arg)
+		g.line("fmt.Println(\"main got\", v%d)", i)
+	}
+	if r.Intn(5) == 0 {
+		g.line("panic(\"fatal\")")
+	}
+	g.line("fmt.Println(\"end\")")
+	g.ind--
+	g.line("}")
+	return g.sb.String()
+}
+
 var c12SrcCorpus = []string{
 	"package main\nimport \"fmt\"\nfunc main() {\n try {\n  x := 1\n  fmt.Println(\"in try\", x)\n } catch(e) {\n  fmt.Println(\"caught\", e)\n }\n fmt.Println(\"done\")\n}\n",
 	"package main\nimport \"fmt\"\nfunc f(n int) int {\n if n < 2 {\n  return 1\n }\n return n * f(n-1)\n}\nfunc main() {\n try {\n  fmt.Println(f(5))\n  try {\n   fmt.Println(f(3) / (f(1) - 1))\n  } catch {\n   fmt.Println(\"inner\")\n  }\n } catch {\n  fmt.Println(\"outer\")\n }\n}\n",
 	"package main\nfunc main() {\n print \"a\"\n print \"b\"\n}\n",
 	"package main\nimport \"fmt\"\nfunc main() {\n x := 0\n for i := 0; i < 3; i = i + 1 {\n  x = x + i\n }\n fmt.Println(x)\n y := 1 / (x - 3)\n fmt.Println(y)\n}\n",
 	"package main\nimport \"fmt\"\nimport \"sort\"\nfunc main() {\n a := []int{3, 1, 2}\n sort.Slice(a, func(i int, j int) bool {\n  return a[i] < a[j]\n })\n fmt.Println(a)\n defer fmt.Println(\"bye\")\n panic(\"boom\")\n}\n",
+	// panic recovered by a deferred closure: output before / after, the caller resumes after the call
+	"package main\nimport \"fmt\"\nfunc risky(n int) int {\n defer func() {\n  if r := recover(); r != nil {\n   fmt.Println(\"recovered:\", r)\n  }\n  fmt.Println(\"handler done\")\n }()\n if n > 2 {\n  panic(\"too big\")\n }\n fmt.Println(\"risky done\", n)\n return n\n}\nfunc main() {\n fmt.Println(\"start\")\n a := risky(1)\n fmt.Println(\"first\", a)\n b := risky(5)\n fmt.Println(\"second\", b)\n fmt.Println(\"end\")\n}\n",
+	// the panic unwinds through two callers that have ordinary defers; the outermost one recovers; named result
+	"package main\nimport \"fmt\"\nfunc inner(n int) int {\n defer fmt.Println(\"inner deferred\", n)\n fmt.Println(\"inner\", n)\n m := n + 1\n panic(m)\n return n\n}\nfunc middle(n int) int {\n defer func() {\n  fmt.Println(\"middle deferred\")\n }()\n v := inner(n)\n fmt.Println(\"middle after\", v)\n return v\n}\nfunc outer(n int) (res int) {\n defer func() {\n  r := recover()\n  fmt.Println(\"outer recovered\", r)\n  res = 42\n }()\n defer fmt.Println(\"outer first deferred\")\n v := middle(n)\n fmt.Println(\"outer after\", v)\n return v\n}\nfunc main() {\n fmt.Println(outer(7))\n fmt.Println(\"end\")\n}\n",
+	// nested: the recovering closure itself calls a function that panics and recovers; LIFO order of three defers
+	"package main\nimport \"fmt\"\nfunc leaf() {\n defer func() {\n  fmt.Println(\"leaf recovered\", recover())\n }()\n panic(\"leaf\")\n}\nfunc f() {\n log := \"\"\n defer func() { fmt.Println(\"log\", log) }()\n defer func() { log = log + \"b\" }()\n defer func() {\n  leaf()\n  recover()\n  log = log + \"a\"\n }()\n fmt.Println(\"f before\")\n panic(\"boom\")\n}\nfunc main() {\n f()\n f()\n fmt.Println(\"end\")\n}\n",
+	// deferred functions that do not recover + print statements; the unrecovered panic is the outcome
+	"package main\nimport \"fmt\"\nfunc g(n int) int {\n defer func() {\n  fmt.Println(\"g deferred\", n)\n }()\n if n > 0 {\n  panic(\"unrecovered\")\n }\n return n\n}\nfunc main() {\n print \"start\"\n print g(0)\n print g(1)\n print \"not reached\"\n}\n",
 }
 
 func c12PartB(t *testing.T) {
@@ -231,6 +413,11 @@ func c12PartB(t *testing.T) {
 	}
 	for i, n := 0, verifh.N(20, 200); i < n; i++ {
 		progs = append(progs, prog{fmt.Sprintf("gen-%d", i), c12GenSource(r), false})
+	}
+	// its own stream, so that the programs above do not depend on how many panic programs are drawn
+	rp := verifh.Rand(1203)
+	for i, n := 0, verifh.N(12, 150); i < n; i++ {
+		progs = append(progs, prog{fmt.Sprintf("panic-%d", i), c12GenPanicSource(rp), false})
 	}
 	// tests/ corpus: a seed-chosen sample of the repository's own @test files
 	var files []string
@@ -258,6 +445,9 @@ func c12PartB(t *testing.T) {
 			plain, ok := c12RunSource(p.src, c12Flags{c: captured}, "", p.test)
 			if !ok {
 				stats.Inc("does_not_compile")
+				if os.Getenv("VERIF_C12_DEBUG") != "" {
+					fmt.Fprintln(os.Stderr, "DOES NOT COMPILE", p.name, c12CompileErr)
+				}
 				break
 			}
 			if plain.status == "hang" {
@@ -310,7 +500,10 @@ func c12PartB(t *testing.T) {
 				stats.Inc("oracle_failures_" + class)
 			}
 		}
-		if (strings.Contains(p.src, "try {") || p.test) && !seen[p.src] {
+		if strings.Contains(p.src, "recover()") && strings.Contains(p.src, "panic(") && !seen[p.src] {
+			stats.Inc("programs_with_panic_and_recover")
+		}
+		if (strings.Contains(p.src, "try {") || strings.Contains(p.src, "recover()") || p.test) && !seen[p.src] {
 			seen[p.src] = true
 			stats.Inc("distinct_nontrivial")
 			stats.Sample(p.name)
